@@ -336,7 +336,7 @@ COMPONENTS = {'real': ['adsg_core.graph (DSG copy / apply / confirmed graph / ex
 ASSUMPTIONS = ['Only set_*_value on the object itself is treated as a documented in-place operation.',
                'An operation that raises on a generated graph ends the history without verdict (not a persistence matter).',
                'Small models; pool of at most 7 live objects.']
-WALL_BUDGET = {'quick': 80.0, 'thorough': 1200.0}
+WALL_BUDGET = {'quick': 80.0, 'thorough': 600.0}
 
 
 def jobs(tier, batch_seed):
